@@ -24,6 +24,7 @@ RULE = ('a cell = (scenario of 2-3 queries that need the helper: import resoluti
         'cell the scenario runs with the fault, then again undisturbed; checked: <= 1 failed query '
         'per helper death, failure type InternalError (raise phase: the injected type), the later '
         'run equals the reference, no zombie, no fd/thread growth, no unraisable/ResourceWarning; '
+        'the same with 2-4 just-dropped Scripts whose helper-side states still await release; '
         'plus up to 3 consecutive crashes and 200 Scripts created and dropped with the helper-side '
         'state count sampled. A cell is non-trivial when the fault was confirmed delivered (helper '
         'pid dead or exception raised in it); distinct by (scenario, k, phase). quick: stratified k; '
@@ -56,6 +57,10 @@ def plan(tier, seed):
                           'all_k': tier == 'thorough', 'seed': '%s/C14/%d/%s' % (seed, si, ph)})
         specs.append({'id': 'c14-s%d-multi' % si, 'mode': 'multi', 'scenario': si,
                       'stride': 10 if tier == 'thorough' else 40})
+        # the helper dies while 2-4 used Scripts have just been dropped and their helper-side
+        # states are still waiting to be released (deferred deletion queue not yet flushed)
+        specs.append({'id': 'c14-s%d-pending' % si, 'mode': 'pending', 'scenario': si,
+                      'all_k': tier == 'thorough'})
     specs.append({'id': 'c14-drop', 'mode': 'drop', 'count': 200})
     return specs
 
@@ -317,14 +322,45 @@ def run(spec):
         if spec['mode'] == 'cells':
             ks = range(K) if spec['all_k'] else sorted(
                 set(list(range(min(K, 5))) + list(range(0, K, max(1, K // 14))) + [K - 1]))
-            cells = [(k, spec['phase'], 1) for k in ks]
+            cells = [(k, spec['phase'], 1, 0) for k in ks]
+        elif spec['mode'] == 'pending':
+            ks = range(K) if spec['all_k'] else sorted({0, 1, K // 2, K - 1})
+            cells = [(k, ph, 1, 2 + (i + j) % 3) for i, k in enumerate(ks)
+                     for j, ph in enumerate(('idle', 'before', 'after', 'trunchalf', 'die'))]
         else:
             for k in range(0, K, spec['stride']):
                 for ph in ('before', 'after', 'die', 'trunc0'):
-                    cells.append((k, ph, 2 + (k // max(1, spec['stride'])) % 2))
+                    cells.append((k, ph, 2 + (k // max(1, spec['stride'])) % 2, 0))
         delivered = set()
-        for k, phase, crashes in cells:
+        for k, phase, crashes, pending in cells:
+            if pending:
+                import jedi
+                held = [jedi.Script('import math\nmath.sq\nx = 1 + %d\nx.re' % i) for i in range(pending)]
+                st.update(n=0, k=None, crashes=0)
+                try:
+                    for h in held:
+                        h.complete(2, 7)
+                        h.complete(4, 4)
+                except Exception as e:
+                    # undisturbed queries long after the previous cell's fault: they must work
+                    rec.violate('c14:later_query_fails:after_recovery:' + type(e).__name__,
+                                'an undisturbed query after an earlier, recovered helper death raised '
+                                '%s: %s' % (type(e).__name__, str(e)[:200]), case=spec['id'],
+                                scenario=spec['scenario'], cell_before=[k, phase])
+                    held = h = None
+                    continue
+                held = h = None
+                gc.collect()
+                rec.ev('c14:cells_with_pending_state_deletions')
             st.update(n=0, k=k, phase=phase, delivered=0, crashes=crashes, pids=[])
+            if phase == 'idle':
+                # the helper dies silently between two requests, before the pending deletions
+                # (or anything else) are sent to it
+                from jedi.api.environment import get_cached_default_environment
+                proc = get_cached_default_environment()._get_subprocess()._get_process()
+                proc.send_signal(signal.SIGKILL)
+                wait_dead(proc.pid)
+                st.update(k=None, crashes=0, delivered=1, pids=[proc.pid])
             watchdog.cell = (k, phase)
             watchdog.t0 = time.time()
             r1 = run_scenario(scen)
@@ -342,7 +378,7 @@ def run(spec):
             rec.ev('c14:cells_delivered')
             rec.ev('c14:phase_' + phase)
             rec.ev('c14:outcome_%d_failed' % sum(1 for x in r1 if x[0] == 'exc'))
-            delivered.add((spec['scenario'], k, phase, crashes))
+            delivered.add((spec['scenario'], k, phase, crashes, pending))
             st['delivered'] = ndel
             _classify(rec, spec, scen, ref, k, phase, crashes, r1, r2, st, base)
         res['violations'] = rec.violations
